@@ -402,3 +402,7 @@ def run(ctx):
     from rules import c04
     c04.check_growth_reported(ctx, "C18.g", m)
     c04.check_batch_growth(ctx, "C18.g", m)
+
+    # shared with C10.a / C09.c: merge_bins validates (apply_bin_map) before it reshapes; T transposes both arrays
+    ctx.borrow("C10", ("HistogramBase.merge_bins:same-map-and-axis", "HistogramBase.merge_bins:no-other-writes"), "C18.a", floor=2)
+    ctx.borrow("C09", ("Histogram2D.T",), "C18.b")
